@@ -6,7 +6,7 @@
    Every equation on den holds for ALL interval indices k and all x: den is zero where a
    spline is not supported, so "zero wherever the result is not supported" is part of it. *)
 From Coq Require Import List NArith ZArith Arith Bool.
-From BSpl Require Import Scalar Outcome Support Poly Spline Ops Forms Generator Interp Spec Spec_Ops Spec_Gen Proofs_Support Proofs_Scalar Proofs_Poly Proofs_Binom Proofs_Eval Proofs_Outcome Proofs_Spline Proofs_Forms Proofs_Ops Proofs_Forms2 Proofs_Interp Proofs_Pred Proofs_Gen.
+From BSpl Require Import Scalar Outcome Support Poly Spline Ops Forms Generator Interp Spec Spec_Ops Spec_Gen Proofs_Support Proofs_Scalar Proofs_Poly Proofs_Binom Proofs_Eval Proofs_Outcome Proofs_Spline Proofs_Forms Proofs_Ops Proofs_Forms2 Proofs_Interp Proofs_Pred Proofs_Gen Instances Instances_Ext Proofs_Valid Solver Pool Quad Proofs_Pool Proofs_Quad Proofs_Sites Proofs_Rounded Proofs_Threads Proofs_Updates.
 Import ListNotations.
 
 
@@ -154,6 +154,19 @@ Theorem C03_lin_comb :
               den r k x = lincomb_val cs (map (fun s : spline F => den s k x) (s0 :: rest))).
 Proof. exact (@Proofs_Spline.lin_comb_spec_strong). Qed.
 
+Theorem C03_update_sequences :
+    forall (F : Type) (K : Ops F),
+           Laws K ->
+           forall (us : list upd) (a : spline F),
+           SplInv a ->
+           Forall (upd_ok (sgridp a) (sord a)) us ->
+           exists r : spline F,
+             apply_upds a us = Ok r /\
+             SplInv r /\
+             sgridp r = sgridp a /\
+             sord r = sord a /\ (forall (k : N) (x : F), den r k x = fold_left (upd_val k x) us (den a k x)).
+Proof. exact (@Proofs_Updates.apply_upds_spec). Qed.
+
 
 Print Assumptions C03_scale.
 Print Assumptions C03_scale_l.
@@ -169,3 +182,4 @@ Print Assumptions C03_isub_is_sub.
 Print Assumptions C03_iadd.
 Print Assumptions C03_isub.
 Print Assumptions C03_lin_comb.
+Print Assumptions C03_update_sequences.
